@@ -187,7 +187,7 @@ def cleanup_operations(
 ) -> list[ops.Operation]:
     operations = _merge_single_qubit_gates(operations, atol=atol)
     circuit = circuits.Circuit(operations)
-    circuit = eject_phased_paulis(circuit)
+    circuit = eject_phased_paulis(circuit, atol=atol)
     circuit = eject_z(circuit)
     circuit = circuits.Circuit(circuit.all_operations(), strategy=circuits.InsertStrategy.EARLIEST)
     return list(circuit.all_operations())
